@@ -171,7 +171,7 @@ func jobsFor(prop, tier string) []*Job {
 			}
 			add(&Job{Name: fmt.Sprintf("O1a-adjust/n=%d,gcd-stubbed", n), Pkg: "roundrobin", Harness: "VerifC10Adjust", Params: p("n", n, "wmax", 1<<13, "stubgcd", 1), Inductive: true, TimeoutS: 120,
 				Bounds: fmt.Sprintf("one adjustWeights from an arbitrary J-state: n=%d, configured weights symbolic in [0,2^13], current weights symbolic within the invariant, ratings from {0,0.02,0.5,1} and readiness symbolic, timer and back-off symbolic; weightsGcd stubbed to 1 (normalisation is O1b)", n)})
-			if n == 2 || thorough {
+			if thorough {
 				add(&Job{Name: fmt.Sprintf("O1c-adjust/n=%d,real-gcd,wmax=3", n), Pkg: "roundrobin", Harness: "VerifC10Adjust", Params: p("n", n, "wmax", 3, "stubgcd", 0), TimeoutS: 120, BranchTimeoutS: 3,
 					Bounds: fmt.Sprintf("one adjustWeights with the real gcd/normalisation: n=%d, configured weights in [0,3], current weights <= 12, ratings from {0,0.02,0.5,1}", n)})
 			}
